@@ -87,8 +87,9 @@ func (v *SliceSchema) validate(ctx *p.SchemaCtx) {
 
 	if isZeroVal || refVal.Len() == 0 {
 		if v.defaultVal != nil {
-			// copy the default so the validated value never shares memory with the schema
-			def := reflect.ValueOf(v.defaultVal)
+			// copy the default so the validated value never shares memory with the schema. The copy is deep: the
+			// items of a default may themselves hold slices, maps or pointers (i.e [][]string)
+			def := p.DeepCopyValue(reflect.ValueOf(v.defaultVal))
 			cp := reflect.MakeSlice(refVal.Type(), def.Len(), def.Len())
 			reflect.Copy(cp, def)
 			refVal.Set(cp)
